@@ -1,13 +1,9 @@
+\* negative twin: only the property it must violate is checked
 SPECIFICATION Spec
 CONSTANTS
   Pw = {"a", "b"}
   MaxKeys = 4
   Atomic = TRUE
   Variant = "passwd_remove_first"
-INVARIANTS
-  SomeKeyWorks
-  ConfigPresentAtomic
-
-PROPERTIES
-  KeyInUseKept
+INVARIANT SomeKeyWorks
 CHECK_DEADLOCK FALSE
